@@ -521,7 +521,7 @@ pub fn run() -> i32 {
                 eprintln!("SELFTEST-FAIL: c04_macro_lookup: case {}", case);
             }
         }
-        for case in 0..=3u8 {
+        for case in 0..=7u8 {
             crate::sym::load(vec![vec![case]]);
             n += 1;
             if std::panic::catch_unwind(|| crate::node::c17_special_members()).is_err() {
